@@ -205,11 +205,12 @@ def check_c13(run):
     thorough = run.tier == "thorough"
     K = 60
     stats = [0, 0]
-    configs = [(1, True, 1), (2, False, 1)]
+    # (waiters, background thread, pre-emption bound, statement-steps, deadlock query?)
+    configs = [(1, True, 1, 60, True), (2, False, 1, 40, False)]
     if thorough:
-        configs = [(1, True, None), (2, False, 2)]
+        configs = [(1, True, None, 60, True), (2, False, 2, 60, True)]
 
-    def mk(nw, bg, mp):
+    def mk(nw, bg, mp, K, with_deadlock):
         def ob(o):
             model = sm.ServeModel(prog, nw, bg, bg_iters=2)
             bmc = sm.ServeBMC(model, model.T, K, max_preemptions=mp)
@@ -230,6 +231,13 @@ def check_c13(run):
                 sched = sm.trace_of(prog, model, bmc, m)
                 run.replay(o, "serve:safety:%dw%s" % (nw, "+bg" if bg else ""), "crossed/duplicated/lost reply; schedule of %d steps: %s" % (len(sched), sched[-12:]),
                            replay_script("C13", prog, model, sched, extra=EXTRA_C13))
+                return
+            if not with_deadlock:
+                # quick tier, 2 waiters: the safety / lost-wake-up query only; twin: some waiter completes within the bound
+                r2, m2 = bmc.check(lambda S: z3.Or(*[z3.And(S.v["depth%d" % t] == 0, S.v["ready%d" % (t + 1)]) for t in range(nw)]), at="any", timeout_ms=600000)
+                o.reach = "some waiter returns with its own reply on some schedule: %s" % r2
+                if r2 != "sat":
+                    raise HarnessError("reachability twin failed: %s" % r2)
                 return
             # deadlock other than the C14 stall: nobody can move, some waiter has neither returned nor its result
             def dead(i):
@@ -261,10 +269,10 @@ def check_c13(run):
             if r2 != "sat":
                 raise HarnessError("reachability twin failed: %s" % r2)
         return ob
-    for (nw, bg, mp) in configs:
+    for (nw, bg, mp, K_, dl) in configs:
         run.obligation("BMC_%dw%s%s" % (nw, "_bg" if bg else "", "_p%d" % mp if mp is not None else ""),
-                       "%d waiter(s)%s: every frame dispatched once, every request gets its own reply, no lost wake-up, no deadlock" % (
-                           nw, " + background thread" if bg else ""), mk(nw, bg, mp))
+                       "%d waiter(s)%s: every frame dispatched once, every request gets its own reply, no lost wake-up%s" % (
+                           nw, " + background thread" if bg else "", ", no deadlock" if dl else ""), mk(nw, bg, mp, K_, dl))
     run.extra = dict(states=max(1, stats[0]), transitions=max(1, stats[1]), traces_validated_against_impl=sum(
         1 for o in run.obligations for v in o.violations if v["reproduced"]),
         explanation="symbolic unrolling of %d statement-steps over all schedules within the stated pre-emption bound" % K)
